@@ -1,4 +1,4 @@
 From Coq Require Import ExtrOcamlBasic NArith.
 From LLRP Require Import Client.Negotiate.
 Extraction Language OCaml.
-Extraction "model.ml" session_t session_kd negotiate_kd held session_post post_run session_ka session negotiate_ka negotiate stamp new_message ack_message conforming cfg_today reader_ver.
+Extraction "model.ml" strict_query session_t session_kd negotiate_kd held session_post post_run session_ka session negotiate_ka negotiate stamp new_message ack_message conforming cfg_today reader_ver.
